@@ -347,6 +347,15 @@ def template_mc(tier):
                  invariants=['Inv_C18_OutputIsRender'], expect_violation='Inv_C18_OutputIsRender')]
 
 
+def race_mc(tier):
+    """two workers applying to one object (spec/PKOApplyRace.tla): design-level form of the known finding C02 and a design in which C02 holds"""
+    c = dict(Pinned='FALSE', MaxPass=4 if tier == 'quick' else 8)
+    inv = ['Act_C02_RevisionMonotone', 'Inv_C02_NoTakeFromNewer']
+    return [dict(name='applyrace-pinned', kind='gen', module='PKOApplyRace', constants=dict(c, Pinned='TRUE'), invariants=inv),
+            dict(name='applyrace-negctl', kind='gen', module='PKOApplyRace', constants=c, invariants=['Act_C02_RevisionMonotone'],
+                 expect_violation='Act_C02_RevisionMonotone')]
+
+
 LIVE = ['Live_C10_ObjectsRepaired', 'Live_C10_Quiescent', 'Live_C10_TeardownCompletes']
 
 
@@ -389,7 +398,7 @@ CHECKS = {
     'C01': dict(level='model_checking', invariants=INV['C01'], jobs=lambda t, s: jobs_c01(t, s) + replay_jobs(t), mc=design_mc(MCINV['C01']),
                 assumptions=['in-memory API server model (spec/Store.tla semantics, harness/sim/store.go)',
                              'third party acts between reconciles (pass-atomic schedules) as the statement quantifies']),
-    'C02': dict(level='model_checking', invariants=INV['C02'], assumptions=ASSUME, mc=design_mc(MCINV['C02']), jobs=sched_jobs([
+    'C02': dict(level='model_checking', invariants=INV['C02'], assumptions=ASSUME, mc=lambda tier: design_mc(MCINV['C02'])(tier) + race_mc(tier), jobs=sched_jobs([
         ('handover-atomic', HANDOVER, 'handover', 'atomic', 160, 3000, 70)])),
     'C03': dict(level='model_checking', invariants=INV['C03'], assumptions=ASSUME, mc=design_mc(MCINV['C03']), jobs=sched_jobs([
         ('rollout-atomic', ROLLOUT + ',' + HANDOVER, 'rollout', 'atomic', 120, 2000, 70),
